@@ -43,11 +43,19 @@ def main(argv=None) -> int:
             return 2
         spec = registry.PROPERTIES[args.prop]
         ctx = Ctx(args.prop, args.tier, proj)
-        for rule in spec["rules"]:
-            rule(ctx)
-        if args.tier == "thorough":
-            for rule in spec.get("thorough", []):
+        # a rule that cannot read an idiom fails the run (exit 2) - unless another rule has a violation to report on the same tree:
+        # then the violation is the verdict (exit 1) and the analysis errors are printed next to it
+        errors = []
+        for rule in list(spec["rules"]) + (list(spec.get("thorough", [])) if args.tier == "thorough" else []):
+            try:
                 rule(ctx)
+            except P.AnalysisError as e:
+                errors.append(str(e))
+        if errors and not ctx.has_new_violation():
+            print(f"ANALYSIS-ERROR property={args.prop}: {errors[0]}")
+            return 2
+        for e in errors:
+            print(f"ANALYSIS-ERROR (next to the violations below) property={args.prop}: {e}")
         return finish(ctx, spec["explanation"])
     except P.AnalysisError as e:
         print(f"ANALYSIS-ERROR property={args.prop}: {e}")
